@@ -1,6 +1,7 @@
 import HexVerif.Xcmp.Compile
 import HexVerif.Lemmas.XcmpV1
 import HexVerif.Lemmas.XcmpV2
+import HexVerif.Lemmas.IsaAccess
 import Drivers.Util
 /-!
   Line-protocol driver for the Lean model of xcmp (`Xcmp.stages`, `Xcmp.compile`); mirrors
@@ -159,7 +160,38 @@ def v2Field (P : X.Program) : String :=
 def v3Field (P : X.Program) : String :=
   if C01s.isV3 P then (if C01s.v3Ok P then "1" else "0") else "-"
 
+def parseFiles (spec : String) : Fin 8 → List Byte :=
+  if spec = "-" then fun _ => [] else
+  let entries := (spec.splitOn ";").filterMap fun kv =>
+    match kv.splitOn "=" with
+    | [k, v] => some (k.toNat!, unhex v)
+    | _ => none
+  fun j => match entries.find? (fun e => e.1 = j.val) with
+    | some e => e.2
+    | none => []
+
+/-- `acc|fuel|stdin|files|sexp`: the access log (`Isa.runAccesses`, as its digest) of the ISA run of the image the
+    compiler MODEL produces; compared by `./check C08` with the observer on the real binary running on the real hexsim. -/
+def handleAcc (fuel stdin files prog : String) : String :=
+  match parseProgram prog with
+  | .error w => "bad-input " ++ w
+  | .ok P =>
+    match compile P with
+    | .error e => "acc !" ++ e.className
+    | .ok img =>
+      let io0 := Isa.IOSt.init (if stdin = "-" then [] else unhex stdin) (parseFiles files)
+      let (e, k, d, _) := Isa.runDigest fuel.toNat! (Am.boot img) io0 0 {}
+      let st := match e with
+        | .exited c => s!"ok exit={natToHex c.toNat}"
+        | .undef .outOfRange => "undef-outOfRange exit=0"
+        | .undef _ => "undef-other exit=0"
+        | .fuel => "fuel exit=0"
+      s!"acc {st} cycles={k} maxfetch={natToHex d.maxfetch} maxload={natToHex d.maxload} maxstore={natToHex d.maxstore} oob={d.oob} nfetch={d.nfetch} nload={d.nload} nstore={d.nstore}"
+
 def handle (line : String) : String :=
+  match (if line.startsWith "acc|" then line.splitOn "|" else []) with
+  | [_, fuel, stdin, files, prog] => handleAcc fuel stdin files prog
+  | _ =>
   match parseProgram line with
   | .error w => "bad-input " ++ w
   | .ok P =>
